@@ -63,6 +63,8 @@ func (f *TField) Key() string {
 type TStruct struct {
 	Name   string
 	Fields []*TField
+	// RawFields are extra IDL field lines the value model does not know (e.g. the thrift request base)
+	RawFields []string
 }
 
 func (s *TStruct) ByID(id int) *TField {
@@ -78,6 +80,9 @@ type TSchema struct {
 	Structs []*TStruct // declaration order (dependencies first, except recursion)
 	Root    *TType
 	IDL     string
+	// Includes: extra IDL files (path -> content) and the include lines of the main file
+	Includes    map[string]string
+	IncludeText string
 }
 
 type TVal struct {
@@ -378,6 +383,7 @@ func renderDefault(v *TVal) string {
 
 func renderIDL(s *TSchema) string {
 	var sb strings.Builder
+	sb.WriteString(s.IncludeText)
 	sb.WriteString("namespace go sim\n\n")
 	for _, st := range s.Structs {
 		fmt.Fprintf(&sb, "struct %s {\n", st.Name)
@@ -394,6 +400,9 @@ func renderIDL(s *TSchema) string {
 				def = " = " + renderDefault(f.Default)
 			}
 			fmt.Fprintf(&sb, "  %d: %s%s %s%s%s\n", f.ID, req, typeName(f.T), f.Name, def, f.Anno)
+		}
+		for _, rf := range st.RawFields {
+			sb.WriteString("  " + rf + "\n")
 		}
 		sb.WriteString("}\n\n")
 	}
